@@ -1,7 +1,9 @@
 #!/bin/bash
-# with_patch.sh <seed-or-refactor id> <check ids...>  : apply the kept patch to /repo, run the checks (--no-write), restore
+# with_patch.sh <seed-or-refactor id> <check ids...>  : apply the kept patch to a scratch worktree of /repo (never to /repo), run the checks there (--no-write)
 id=$1; shift
 p=/verif/seeded/$id/patch.diff; [ -f $p ] || p=/verif/refactors/$id/patch.diff
-git -C /repo apply $p || exit 3
-for c in "$@"; do /verif/check $c --no-write 2>&1 | grep -v "^WARNING" | grep -A1 "rule=\|VIOLATION\|ANALYSIS-ERROR\|obligations over" ; done
-git -C /repo checkout -- .
+wt=$(mktemp -d -u /tmp/ginsa_wp_XXXXXX)
+git -C /repo worktree add -q --detach "$wt" HEAD || exit 3
+trap 'git -C /repo worktree remove --force "$wt"; rm -rf "$wt"; git -C /repo worktree prune' EXIT
+git -C "$wt" apply $p || exit 3
+for c in "$@"; do /verif/check $c --no-write --repo "$wt" 2>&1 | grep -v "^WARNING" | grep -A1 "rule=\|VIOLATION\|ANALYSIS-ERROR\|obligations over" ; done
